@@ -56,6 +56,22 @@ def dna_seq(rng, n, gaps=True):
     return "".join(rng.choice(alpha) for _ in range(n))
 
 
+# valid documents whose block ORDER matters: TREES before DATA / CHARACTERS / a further TAXA block, several TREES blocks
+ORDER_STRUCTURES = ["trees+data", "trees+data+trees", "trees+taxa+trees", "taxa+trees+taxa+trees", "trees+trees",
+                    "taxa+trees+characters", "taxa+trees+data", "trees+taxa"]
+# the entry points for which such a document is valid as a whole (DataSet.get wants LINK statements when a
+# document has several TAXA blocks; CharacterMatrix.get wants character data)
+ORDER_VALID = {
+    "trees+data": ("nexus", "nexus_trees", "nexus_chars", "nexus_yield"),
+    "trees+data+trees": ("nexus", "nexus_trees", "nexus_chars", "nexus_yield"),
+    "trees+taxa+trees": ("nexus_trees", "nexus_yield"),
+    "taxa+trees+taxa+trees": ("nexus_trees", "nexus_yield"),
+    "trees+trees": ("nexus", "nexus_trees", "nexus_yield"),
+    "taxa+trees+characters": ("nexus", "nexus_trees", "nexus_chars", "nexus_yield"),
+    "taxa+trees+data": ("nexus", "nexus_trees", "nexus_chars", "nexus_yield"),
+    "trees+taxa": ("nexus", "nexus_trees", "nexus_yield"),
+}
+
 CHAR_FLAVOURS = ["dna", "dna-fmt", "interleave", "multistate", "standard", "symbols", "protein", "rna", "continuous",
                  "matchchar", "nucleotide", "noformat", "interleave-continuous", "gapmissing",
                  "blocks", "interleave-blocks"]
@@ -77,7 +93,7 @@ def dna_cells(rng, n, groups=0.15):
 def gen_nexus(rng, structure=None, flavour=None):
     """a valid NEXUS document; returns (text, structure name)"""
     structure = structure or rng.choice(STRUCTURES)
-    nt = rng.randint(2, 4)
+    nt = rng.randint(2, 4) if structure not in ORDER_STRUCTURES else rng.randint(3, 5)
     nc = rng.randint(2, 6) if flavour not in ("blocks", "interleave-blocks") else rng.randint(6, 12)
     labels = rng.sample([l for l in LABELS if l != "'q r'"], nt)
     nl = rng.choice(["\n", "\n", " "]) if structure not in ("interleaved+trees", "char-flavours", "flavour") else "\n"
@@ -87,11 +103,11 @@ def gen_nexus(rng, structure=None, flavour=None):
     if rng.random() < 0.3:
         out.append("[a file comment]")
 
-    def taxa(title=None):
+    def taxa(title=None, labels=labels):
         b = ["BEGIN TAXA;"]
         if title:
             b.append(ind + "TITLE %s;" % title)
-        b.append(ind + "DIMENSIONS NTAX=%d;" % nt)
+        b.append(ind + "DIMENSIONS NTAX=%d;" % len(labels))
         b.append(ind + "TAXLABELS " + " ".join(labels) + ";")
         b.append(end)
         return b
@@ -181,7 +197,8 @@ def gen_nexus(rng, structure=None, flavour=None):
         b.append(end)
         return b
 
-    def trees_block(translate=False, title=None, link=None, ntrees=None):
+    def trees_block(translate=False, title=None, link=None, ntrees=None, labels=labels):
+        nt = len(labels)
         b = ["BEGIN TREES;"]
         if title:
             b.append(ind + "TITLE %s;" % title)
@@ -241,6 +258,27 @@ def gen_nexus(rng, structure=None, flavour=None):
         out += taxa() + chars(flavour="interleave") + trees_block(translate=rng.random() < 0.5) + sets()
     elif structure == "char-flavours":
         out += taxa() + chars() + chars(kind="CHARACTERS")
+    elif structure in ORDER_STRUCTURES:
+        # block orders in which a later block introduces taxa that an earlier TREES block (without TRANSLATE)
+        # of the same namespace did not use
+        sub = labels[:rng.randint(2, nt - 1)]
+        fl = rng.choice(["dna", "dna", "dna-fmt", "blocks"])      # (DNA: the document is also valid for DnaCharacterMatrix.get)
+        if structure == "trees+data":
+            out += trees_block(labels=sub) + chars("DATA", with_ntax=True, flavour=fl)
+        elif structure == "trees+data+trees":
+            out += trees_block(labels=sub) + chars("DATA", with_ntax=True, flavour=fl) + trees_block()
+        elif structure == "trees+taxa+trees":
+            out += trees_block(labels=sub) + taxa() + trees_block()
+        elif structure == "taxa+trees+taxa+trees":
+            out += taxa(labels=sub) + trees_block(labels=sub) + taxa() + trees_block()
+        elif structure == "trees+trees":
+            out += trees_block(labels=sub) + trees_block() + (trees_block(labels=sub) if rng.random() < 0.5 else [])
+        elif structure == "taxa+trees+characters":
+            out += taxa() + trees_block(labels=sub) + chars(flavour=fl)
+        elif structure == "taxa+trees+data":
+            out += taxa() + trees_block(labels=sub) + chars("DATA", with_ntax=True, flavour=fl) + trees_block()
+        elif structure == "trees+taxa":
+            out += trees_block(labels=sub) + taxa()
     else:
         raise ValueError(structure)
     return nl.join(out) + "\n", structure
@@ -576,6 +614,20 @@ def cases(rng, tier):
                 out.extend(chunked_families(r2, text, {}, "truncation:" + st))
             for _e in range(6 if quick else 40):
                 out.append(edited(rng, "nexus", text, {}, rng.choice([1, 1, 2])))
+    # valid documents in which a TREES block precedes a block that introduces further taxa: the WHOLE document
+    # through every entry point (DataSet.get, TreeList.get, CharacterMatrix.get, Tree.yield_from_files)
+    for s in ORDER_STRUCTURES:
+        for i in range(3 if quick else 20):
+            text, st = gen_nexus(rng, s)
+            for rd in ("nexus", "nexus_trees", "nexus_chars", "nexus_yield"):
+                c = {"reader": rd, "text": text, "kind": "valid-order:" + st}
+                if rd in ORDER_VALID[s]:
+                    c["expect_ok"] = True
+                out.append(c)
+            if i == 0:
+                cuts = [k for k in range(len(text) + 1) if not quick or k % 3 == 0 or text[max(0, k - 1):k] in (";", "\n", " ", "=")]
+                for rd in ("nexus", "nexus_trees"):
+                    out.extend(family(rd, text, {}, "truncation-sampled:" + st, cuts[j:j + 60]) for j in range(0, len(cuts), 60))
     for _ in range(4 if quick else 30):
         text = gen_newick(rng)
         out.append({"reader": "newick", "text": text, "kind": "valid"})
@@ -635,6 +687,13 @@ def search_stream(rng):
         for i in range(40):
             text, kind = gen_nexus_dims(rng, where=DIMS_WHERE[i % len(DIMS_WHERE)])
             yield {"reader": "nexus", "text": text, "kind": kind}
+        for s in ORDER_STRUCTURES:
+            text, st = gen_nexus(rng, s)
+            for rd in ("nexus", "nexus_trees", "nexus_chars", "nexus_yield"):
+                c = {"reader": rd, "text": text, "kind": "valid-order:" + st}
+                if rd in ORDER_VALID[s]:
+                    c["expect_ok"] = True
+                yield c
         for s in STRUCTURES:
             text, st = gen_nexus(rng, s)
             for f in chunked_families("nexus", text, {}, "truncation:" + st):
